@@ -46,17 +46,17 @@ const maxDistinct = 400000
 type Stats struct {
 	mu sync.Mutex
 
-	Property    string           `json:"property"`
-	Evaluations int              `json:"evaluations"`
-	Calls       int64            `json:"api_calls"`
-	NonTrivial  []uint64         `json:"nontrivial_hashes"`
-	NTCapped    bool             `json:"nontrivial_capped"`
-	Classes     map[string]int64 `json:"classes"`
+	Property    string            `json:"property"`
+	Evaluations int               `json:"evaluations"`
+	Calls       int64             `json:"api_calls"`
+	NonTrivial  []uint64          `json:"nontrivial_hashes"`
+	NTCapped    bool              `json:"nontrivial_capped"`
+	Classes     map[string]int64  `json:"classes"`
 	Samples     []json.RawMessage `json:"samples"`
-	Excluded    int              `json:"excluded_known"`
-	Violations  []string         `json:"violations"`
+	Excluded    int               `json:"excluded_known"`
+	Violations  []string          `json:"violations"`
 	Notes       map[string]string `json:"notes,omitempty"`
-	Exhaustive  map[string]int64 `json:"exhaustive_subspaces,omitempty"`
+	Exhaustive  map[string]int64  `json:"exhaustive_subspaces,omitempty"`
 
 	nt      map[uint64]struct{}
 	sampled map[string]int
